@@ -25,6 +25,15 @@ def run_check(prop_id, tier, seed, repo=None):
             # thorough = quick + the checker self-test for this property (seeded faults must fire, rewrites stay silent)
             from .selftest import run_selftest
             ok = run_selftest(prop_id, seed, repo=repo, verbose=False)
+            try:
+                from . import VERIF
+                evp = os.path.join(VERIF, "evidence", f"{prop_id}.json")
+                ev = json.load(open(evp))
+                ev["coverage"]["selftest"] = getattr(run_selftest, "last_summary", {})
+                ev["wall_s"] = round(time.time() - t0, 3)
+                json.dump(ev, open(evp, "w"), indent=1)
+            except Exception:
+                pass
             if not ok:
                 print(f"SELFTEST-FAIL property={prop_id}")
                 return 2
